@@ -33,6 +33,20 @@ func c05Run(c *Ctx) {
 		p.Burst = append(p.Burst, b)
 	}
 	p.CloseEarly = c.W.Draw(8) == 7
+	// ring cursors start at a drawn offset, biased towards the physical end of the buffer
+	// (index 0 = the fresh ring, the simplest choice)
+	for w := 0; w <= p.Workers; w++ {
+		off := 0
+		switch c.W.Draw(4) {
+		case 1:
+			off = lcap - 1 - c.W.Draw(min(lcap, 6))
+		case 2:
+			off = c.W.Draw(lcap)
+		case 3:
+			off = lcap - 1
+		}
+		p.Rotate = append(p.Rotate, off)
+	}
 	c.Note("params", p)
 	c.Note("local_queue_cap", lcap)
 	c.Note("global_queue_initial_cap", actor.VerifGlobalQueueInitCap())
